@@ -235,8 +235,8 @@ func (w *srvWorld) checkC03Order() {
 						// the time its reply is passed to Send (inside a batch the
 						// reply waits for the siblings and says nothing)
 						start = -1
-						if len(mj.Members) == 1 {
-							start = w.replySeq(q.ID)
+						if len(mj.Members) == 1 && w.repliedWithResult(q.ID) {
+							start = w.replySeq(q.ID) // (an error reply - cancelled while waiting - proves no run)
 						}
 					}
 					if start < 0 {
@@ -930,13 +930,15 @@ func (w *srvWorld) checkC09(final bool) {
 				return
 			}
 			used[pay] = a.Tag
-		case a.ErrV == context.Canceled || a.ErrV == context.DeadlineExceeded:
+		case errors.Is(a.ErrV, context.Canceled) || errors.Is(a.ErrV, context.DeadlineExceeded):
+			// "the context's error": C09 does not name the sentinel values, so an
+			// error that wraps the context's error (with its cause, say) counts
 			if a.ClockFired {
 				break // the deadline passed at a moment the workload did not choose: nothing more to judge
 			}
-			okCtx := ((a.CtxKind == 1 || a.CtxKind == 3) && a.ErrV == context.Canceled && ctxEnd <= a.Return) ||
-				(a.CtxKind == 2 && a.ErrV == context.DeadlineExceeded && ctxEnd <= a.Return) ||
-				(a.ErrV == context.Canceled && (stopped || hctxMayEnd))
+			okCtx := ((a.CtxKind == 1 || a.CtxKind == 3) && errors.Is(a.ErrV, context.Canceled) && ctxEnd <= a.Return) ||
+				(a.CtxKind == 2 && errors.Is(a.ErrV, context.DeadlineExceeded) && ctxEnd <= a.Return) ||
+				(errors.Is(a.ErrV, context.Canceled) && (stopped || hctxMayEnd))
 			if !okCtx {
 				r.Fail("wrong-outcome", "Callback %s returned %v but its context (kind %d) had not ended and the server had not stopped", a.Tag, a.ErrV, a.CtxKind)
 				return
